@@ -88,6 +88,9 @@ TYPES = [
                 ("fam.Color", R("Color"))]),
     union("UN", [("long", P("int64")), ("fam.Inner", R("Inner"))], has_null=True),
     record("WithU", [F("u", R("U")), F("ou", R("U"), True), F("un", R("UN"), True), F("au", A(R("U")), True)]),
+    record("DOuter", [F("dn", R("Dflt")), F("dx", P("int32"), default="5"), F("dopt", R("Dflt"), True),
+                      F("dl", P("int64"), default="-9007199254740993"), F("dy", P("bytes"), default='"a\\u00ffb"'),
+                      F("dfx", R("Fx4"), default='"\\u0000\\u0001\\u00fe\\u00ff"'), F("du", R("U"), default='{"string":"u"}')]),
     record("Incl", [F("z", P("string"))], includes=["Inner", "Dflt"]),
     record("Incl2", [F("w", P("int32"), True)], includes=["Incl"]),
     record("Rec", [F("v", P("int32")), F("next", R("Rec"), True), F("kids", A(R("Rec")), True)]),
@@ -98,7 +101,7 @@ TYPES = [
 ]
 
 # top-level types the drivers exercise
-TOP = ["Inner", "Prims", "Opts", "Dflt", "Coll", "U", "UN", "WithU", "Incl", "Incl2", "Rec", "Big", "Color", "Fx4"]
+TOP = ["Inner", "Prims", "Opts", "Dflt", "DOuter", "Coll", "U", "UN", "WithU", "Incl", "Incl2", "Rec", "Big", "Color", "Fx4"]
 
 
 def manifest(package_root):
